@@ -6,7 +6,7 @@ import tempfile
 
 import numpy as np
 
-from .. import exactangle as XA, g2otext as GT, gs, refmodel as R, strategies as S
+from .. import exactangle as XA, g2otext as GT, gs, hugegraph as HG, refmodel as R, strategies as S
 from graphslam.g2o_parameters import G2OParameterSE2Offset, G2OParameterSE3Offset
 from .c14 import load_with_log
 from .c02 import _chi2_tol
@@ -45,6 +45,8 @@ def _vals(g, n, extreme):
 
 @S.composite
 def strategy_(g):
+    if g.rnd.random() < 0.002:
+        return HG.gen_roundtrip(g)
     src = g.choice(["text", "prog", "prog", "bad"])
     cycles = g.choice([1, 1, 2, 3, 5])
     if src == "text":
@@ -167,6 +169,8 @@ def strategy(tier):
 
 
 def summarise(case):
+    if case["src"] == "huge":
+        return case
     if case["src"] == "text":
         return {"src": "text", "cycles": case["cycles"], "text": GT.file_text(case["file"])[:1200]}
     return {"src": case["src"], "bad": case.get("bad"), "cycles": case["cycles"], "registered": case["registered"], "verts": case["verts"][:4], "edges": [{k: e[k] for k in ("t", "ids", "z", "off", "off_id") if k in e} for e in case["edges"][:4]], "n_verts": len(case["verts"]), "n_edges": len(case["edges"])}
@@ -380,6 +384,8 @@ def check(case, ctx):
     ctx.event("cycles:%d" % cycles)
     tmp = tempfile.mkdtemp(prefix="vf_c13_")
     try:
+        if src == "huge":
+            return HG.check_roundtrip(case, ctx, tmp)
         if src == "text":
             p0 = os.path.join(tmp, "src.g2o")
             with open(p0, "w", newline="") as f:
